@@ -8,15 +8,19 @@
 # DLCI origin at every call site of sercomm_sendmsg, C06.R6 no caller of
 # sercomm_drv_pull drops a pulled octet, C06.R7 the msgb helpers R1 relies on
 # (msgb_alloc / msgb_reserve / msgb_tailroom / msgb_put) evaluated on the
-# receive buffer for every fill level.  See DESIGN.md section 7, C06.
+# receive buffer for every fill level, C06.R8 no caller of sercomm_drv_rx_char
+# masks the receive interrupt for a value the receive step really returns,
+# C06.R9 an idle verdict of the pull taken on a summary instead of the queues
+# (a message counter) is zero exactly when every queue is empty, for every
+# number of queued messages.  See DESIGN.md section 7, C06.
 
 import os
 import shutil
 import tempfile
 
-from report import AnalysisError
+from report import AnalysisError, STAGE_FAILED
 from cfront import (TU, CCFG, kids, kind, strip, walk, ctext, cliterals,
-                    calls_to, call_args, strip_comments, array_extent, wrap_int, sizeof_operand_type)
+                    calls_to, call_args, strip_comments, array_extent, wrap_int, sizeof_operand_type, fold_env)
 
 EXPLANATION = (
     "clang AST of sercomm.c (firmware flags and -DHOST_BUILD), msgb.c and, in "
@@ -62,7 +66,17 @@ EXPLANATION = (
     "(msgb.h, msgb.c) are evaluated on the receive buffer of each build - integers concrete, addresses as offsets "
     "from the allocated block, calls followed - for every fill level under the receiver's protocol (append one octet "
     "only after msgb_tailroom reported room); only store addresses, reported room and the resulting data / tail / len "
-    "are observed, not how a helper is written.  A statement about all paths of "
+    "are observed, not how a helper is written.  The receive direction of the drivers: the values sercomm_drv_rx_char() "
+    "returns are enumerated from the walked paths of the receive step (the overflow path is the one that reports the "
+    "discarded over-long frame); every caller's CFG is walked from the call once per value, conditions that are functions "
+    "of the result (also through integer locals, switch operands, a static wrapper returning it) decided for that value, "
+    "and a receive-interrupt mask with folded arguments that lies on every way to the next call / the end of the handler "
+    "for such a value is reported - a test no actual value satisfies guards dead code.  An idle verdict of the pull that "
+    "does not come from the scan over all queues must come from one file-scope integer whose every write in sercomm.c is "
+    "+1 (once per enqueue on every walked path of sercomm_sendmsg) or -1 (once per successful dequeue on every walked path "
+    "of the pull), under the lock: the test is then evaluated on (number of queued messages) wrapped to that integer's "
+    "type, and the smallest positive count that reads as idle is the witness (256 for an 8-bit counter) unless that many "
+    "struct msgb cannot exist in the build's address space.  A statement about all paths of "
     "one step holds for every octet stream and every queueing history.")
 ALLOC_ASSUMPTION = (
     "sercomm_alloc_msgb() returns a buffer (non-NULL) in the receive step: the property quantifies over histories in which "
@@ -81,6 +95,8 @@ ASSUMPTIONS = [
     "(uart_putchar_nb, ...) is taken as forwarded - what that callee does with it is not followed",
     "non-local objects read in the branch conditions of a pull caller keep their value between two reads unless the caller "
     "itself stores to them (a verdict that needs such a re-read after a call is withheld: ANALYSIS-ERROR)",
+    "a message counter kept next to the transmit queues wraps modulo 2^width (two's complement for a signed type); every queued "
+    "message is a distinct struct msgb holding two list pointers, so at most 2^32/8 (firmware) / 2^64/16 (host) exist at once",
 ]
 
 F = "src/target/firmware/comm/sercomm.c"
@@ -2367,11 +2383,13 @@ def r4_queue_scan(L, tu, tx):
     def truncated(evs):
         return any(e[0] in ("loopexit", "loopcut") for e in evs)
 
+    def in_vocabulary(t):
+        return t.startswith(iv + " < ") or t.endswith(" < " + iv) or t in (EMPTY, TXM, dst)
+
     def vocabulary(lits, where):
         """literals the scan may depend on: counter bound, emptiness of the
         queue under the counter, the message in progress"""
-        bad = sorted(("" if pl else "!") + t for (t, pl) in lits
-                     if not (t.startswith(iv + " < ") or t.endswith(" < " + iv) or t in (EMPTY, TXM, dst)))
+        bad = sorted(("" if pl else "!") + t for (t, pl) in lits if not in_vocabulary(t))
         if bad:
             raise AnalysisError("%s(): %s depends on %s -- unclassifiable" % (SCAN_FN, where, bad))
 
@@ -2380,7 +2398,7 @@ def r4_queue_scan(L, tu, tx):
     L.ob(R, F, TX_FN, "a message is dequeued only when no message is in progress", "msgb_dequeue unreachable while %s is set" % TXM,
          "reachable" if busy else "unreachable", not busy, line)
     # start of the scan
-    first = set()
+    first, shortcuts, nidle = set(), [], 0
     for p in walk_scan([False]):
         at = [e for e in p.events if e[0] == "at" and e[1] == 1]
         if at:
@@ -2398,10 +2416,19 @@ def r4_queue_scan(L, tu, tx):
             else:
                 first.add("not constant")
         elif not truncated(p.events):
-            # no dequeue on this path: every queue was skipped as empty / the counter ran out
-            vocabulary(fork_lits(p.events), "an idle path without dequeue")
+            # no dequeue on this path: every queue was skipped as empty / the counter ran out ...
+            forks = [e for e in p.events if e[0] == "fork" and len(e) > 3]
+            other = [e for e in forks if any(not in_vocabulary(t) for (t, _) in e[3])]
+            vocabulary({l for e in forks if e not in other for l in e[3]}, "an idle path without dequeue")
+            if other:
+                # ... or the verdict was taken on something else than the queues: C06.R9 decides whether that
+                # something is zero exactly when every queue is empty
+                shortcuts.append((p, other))
+            nidle += 1
     if "not constant" in first:
         raise AnalysisError("%s(): first queue index `%s` is not a constant -- unclassifiable" % (SCAN_FN, iv))
+    if shortcuts:
+        L.stage(r9_idle_summary, L, tu, tx, SCAN_FN, walk_scan, shortcuts, line)
     # after an empty queue (first and every later iteration)
     steps, early, overrun = set(), [], []
     for outcomes in ([False], [False, False]):
@@ -2480,6 +2507,234 @@ def r4_queue_scan(L, tu, tx):
               TXM if holders == {TXM} else sorted(holders), line=line)
     L.require(R, F, TX_FN, "the scan stops at the first non-empty queue: nothing more is dequeued and the message found "
               "is kept (a queue is reached only after every lower one returned NULL)", [], sorted(set(overrun)), line=line)
+
+
+# ------------------------------------------- C06.R9 idle verdict from a summary
+#
+# "Any sequence of messages queued for transmission ... is delivered ... exactly once each": a message that
+# sits in a queue while sercomm_drv_pull() says "nothing to send" is not delivered (the drivers stop asking:
+# osmocon drops the write callback, the firmware masks the THR interrupt).  The pull may say so without
+# looking at the queues only when what it looks at instead is zero EXACTLY when every queue is empty.
+
+_C_INT_BITS = {"char": (8, True), "signed char": (8, True), "unsigned char": (8, False), "short": (16, True),
+               "unsigned short": (16, False), "int": (32, True), "unsigned int": (32, False),
+               "long long": (64, True), "unsigned long long": (64, False)}
+
+
+def int_type_bits(node, tukind):
+    """(bits, signed) of the integer type of an expression in the build of this translation unit, None for
+    anything else (typedefs are read through clang's desugared type)."""
+    ty = node.get("type", {})
+    qt = (ty.get("desugaredQualType") or ty.get("qualType") or "")
+    qt = " ".join(w for w in qt.split() if w not in ("const", "volatile"))
+    if qt in ("long", "unsigned long"):
+        return (32 if tukind == "fw" else 64, qt == "long")
+    return _C_INT_BITS.get(qt)
+
+
+def pointer_bits(tukind):
+    return 32 if tukind == "fw" else 64
+
+
+def step_node(step, nid):
+    for g in [step.g] + list(step._graphs.values()):
+        for n in g.nodes:
+            if n.id == nid:
+                return n
+    raise AnalysisError("%s(): CFG node of a recorded branch vanished" % step.fname)
+
+
+def global_int_lvalues(tu, e):
+    """Maximal member / variable lvalues of integer type rooted in a file-scope object that e reads."""
+    glob = tu_globals(tu)
+    out = {}
+    for n in walk(e):
+        if kind(n) not in ("MemberExpr", "DeclRefExpr"):
+            continue
+        par = tu.parent.get(id(n))
+        while par is not None and kind(par) in ("ImplicitCastExpr", "ParenExpr"):
+            par = tu.parent.get(id(par))
+        if par is not None and kind(par) == "MemberExpr":
+            continue
+        root = n
+        while kind(root) == "MemberExpr" and not root.get("isArrow") and kids(root):
+            root = strip(kids(root)[0])
+        if kind(root) != "DeclRefExpr" or ref_id(root) not in glob:
+            continue
+        out[ctext(n)] = n
+    return out
+
+
+def r9_idle_summary(L, tu, tx, SCAN_FN, walk_scan, shortcuts, line):
+    """C06.R9 -- decides, for the clause 'any sequence of messages queued for transmission ... is delivered
+    ... exactly once each' over all interleavings of sendmsg and pull, the premise that sercomm_drv_pull()
+    reports 'nothing to send' (returns 0 without a dequeue) only when every DLCI queue is empty.  A path
+    that reaches that verdict after running the scan over all queues is R4's business.  A path that reaches
+    it on a test of something else (a summary kept next to the queues) is accepted only when the summary is
+    proven equivalent to 'all queues empty':
+      * the summary is one integer object X of file scope; the test folds to a truth value for every value of X;
+      * every write to X in sercomm.c is +1 / -1 (or the constant 0 in sercomm_init); X never has its address taken;
+      * on every walked path of sercomm_sendmsg the number of +1 equals the number of enqueues on the DLCI
+        queues, on every walked path of the pull the number of -1 equals the number of successful dequeues,
+        nothing else changes X or the queues, and test and updates lie between sercomm_lock and sercomm_unlock;
+    then X == (number of queued messages) modulo 2^width(X) at every test, and the verdict is evaluated on
+    that: the smallest n >= 1 for which the test, given X = n wrapped to X's type, takes the idle path is a
+    queue content (n messages, none in flight) that is reported idle and not delivered.  Such an n is a
+    violation when n messages can exist at once - each is a distinct struct msgb holding two list pointers,
+    so n * 2 * sizeof(void *) must fit the address space of the build (2^32 firmware, 2^64 host); a counter as
+    wide as size_t / unsigned long therefore never qualifies, an 8-bit one gives n = 256.  An enqueue path
+    that does not count (X stays 0 with one message queued) is the same violation with n = 1.  Any other
+    departure from the discipline is not judged (ANALYSIS-ERROR)."""
+    R = "C06.R9"
+    step = tx.step
+    tag = "firmware" if tu.kind == "fw" else "host"
+    own = own_functions(tu)
+    for (p, forks) in shortcuts:
+        names, conds = {}, []
+        for e in forks:
+            node = step_node(step, e[1])
+            c = node.cond
+            line = tu.line(node.ast) if node.ast is not None else line
+            conds.append((c, bool(e[2])))
+            for t, n in global_int_lvalues(tu, c).items():
+                if t != TXM:
+                    names[t] = n
+        bad = sorted(("" if pl else "!") + t for e in forks for (t, pl) in e[3])
+        if len(names) != 1:
+            raise AnalysisError("%s(): an idle path without dequeue depends on %s -- unclassifiable" % (SCAN_FN, bad))
+        X, xn = list(names.items())[0]
+        tb = int_type_bits(xn, tu.kind)
+        if tb is None:
+            raise AnalysisError("%s(): an idle path without dequeue depends on %s: `%s` is not a plain integer object "
+                                "-- unclassifiable" % (SCAN_FN, bad, X))
+        bits, signed = tb
+        qt = xn.get("type", {}).get("qualType")
+
+        def wrapx(n):
+            n &= (1 << bits) - 1
+            return n - (1 << bits) if (signed and n >= 1 << (bits - 1)) else n
+
+        def idle_for(x):
+            """does the path take the idle verdict when the summary reads x (no message in progress)?"""
+            for c, lab in conds:
+                r = fold_env(tu, c, {X: x, TXM: 0})
+                if r is None:
+                    raise AnalysisError("%s(): the test `%s` on the idle path is not a function of `%s` alone -- "
+                                        "unclassifiable" % (SCAN_FN, ctext(c), X))
+                if bool(r) != lab:
+                    return False
+            return True
+
+        # ---- the discipline: who writes X, who changes the queues
+        def counter_events(evs, who):
+            """[(index, +1|-1)] of the updates of X among path events; anything else written to X is not judged"""
+            out = []
+            for i, e in enumerate(evs):
+                if e[0] == "compound" and e[1] == X:
+                    if e[2] in ("++", "+=") and e[3] == ("const", 1):
+                        out.append((i, 1))
+                    elif e[2] in ("--", "-=") and e[3] == ("const", 1):
+                        out.append((i, -1))
+                    else:
+                        raise AnalysisError("%s(): `%s %s ...` is not a +1 / -1 update of the idle summary -- unclassifiable"
+                                            % (who, X, e[2]))
+                elif e[0] in ("store", "local", "setptr") and e[1] == X:
+                    raise AnalysisError("%s(): `%s` is assigned, not counted -- unclassifiable" % (who, X))
+            return out
+
+        def locked_at(evs, idxs, who):
+            held, at = False, {}
+            for i, e in enumerate(evs):
+                if e[0] == "call" and e[1] == "sercomm_lock":
+                    held = True
+                elif e[0] == "call" and e[1] == "sercomm_unlock":
+                    held = False
+                at[i] = held
+            if not all(at.get(i) for i in idxs):
+                raise AnalysisError("%s(): `%s` / the queues are used outside sercomm_lock .. sercomm_unlock -- the summary "
+                                    "is not tied to the queue content" % (who, X))
+
+        for n in walk(tu.ast):
+            if kind(n) == "UnaryOperator" and n.get("opcode") == "&" and kids(n) and ctext(kids(n)[0]) == X:
+                raise AnalysisError("the address of `%s` is taken (%s:%s) -- its writers are not visible" % (X, F, tu.line(n)))
+        send_step = Step(tu, "sercomm_sendmsg", "<no octet>", "<no state>")
+        covered = {TX_FN, "sercomm_sendmsg"} | set(step.reachable_helpers()) | set(send_step.reachable_helpers())
+        for name, fn in sorted(own.items()):
+            for e in effects(tu.body(fn)):
+                if e[0] in ("store", "compound", "incdec") and ctext(e[1]) == X and name not in covered:
+                    if name == "sercomm_init" and e[0] == "store" and tu.fold(e[2]) == 0:
+                        continue
+                    raise AnalysisError("%s() writes the idle summary `%s` outside the send / pull steps -- unclassifiable"
+                                        % (name, X))
+                if e[0] == "call" and e[1] in ("msgb_enqueue", "msgb_dequeue", "llist_add", "llist_add_tail", "llist_del") \
+                        and any(QUEUES in ctext(a) for a in e[2]) and name not in covered:
+                    raise AnalysisError("%s() changes %s outside the send / pull steps -- the idle summary `%s` cannot "
+                                        "follow it" % (name, QUEUES, X))
+        # ---- enqueue side
+        uncounted, nsend = [], 0
+        for sp in send_step.paths(0, 0x41):
+            if any(e[0] in ("loopcut", "loopexit") for e in sp.events):
+                raise AnalysisError("sercomm_sendmsg(): loop on the enqueue path -- unclassifiable")
+            nsend += 1
+            enq = [i for i, e in enumerate(sp.events) if e[0] == "call" and e[1] == "msgb_enqueue"
+                   and e[2] and e[2][0].startswith("&" + QUEUES + "[")]
+            cnt = counter_events(sp.events, "sercomm_sendmsg")
+            net = sum(d for _, d in cnt)
+            if net == len(enq):
+                locked_at(sp.events, enq + [i for i, _ in cnt], "sercomm_sendmsg")
+            elif net < len(enq) and all(d > 0 for _, d in cnt):
+                uncounted.append("%d enqueue(s), %d increment(s) of `%s`" % (len(enq), net, X))
+            else:
+                raise AnalysisError("sercomm_sendmsg(): `%s` changes by %+d on a path with %d enqueue(s) -- unclassifiable"
+                                    % (X, net, len(enq)))
+        if not nsend:
+            raise AnalysisError("sercomm_sendmsg(): no path walked")
+        # ---- dequeue side: idle entry (scan) and message in progress
+        npull = 0
+        for outcomes in ([False], [True], [False, True], [False, False]):
+            for pp in walk_scan(outcomes):
+                if any(e[0] in ("loopcut",) for e in pp.events):
+                    continue
+                if any(e[0] == "again" and e[1] > len(outcomes) for e in pp.events):
+                    continue            # stopped at a deeper iteration: covered by the generic one
+                npull += 1
+                got = [i for i, e in enumerate(pp.events) if e[0] == "got" and e[2]]
+                cnt = counter_events(pp.events, SCAN_FN)
+                if -sum(d for _, d in cnt) != len(got) or any(d > 0 for _, d in cnt):
+                    raise AnalysisError("%s(): `%s` changes by %+d on a path with %d successful dequeue(s) -- unclassifiable"
+                                        % (SCAN_FN, X, sum(d for _, d in cnt), len(got)))
+                tests = [i for i, e in enumerate(pp.events) if e[0] == "fork" and len(e) > 3
+                         and any(X in t for (t, _) in e[3])]
+                locked_at(pp.events, got + tests + [i for i, _ in cnt], SCAN_FN)
+        for paths in tx.tab.values():
+            for bp in paths:
+                if counter_events(bp.events, TX_FN):
+                    raise AnalysisError("%s(): `%s` changes while a message is in progress -- unclassifiable" % (TX_FN, X))
+        L.floor(R, "walked paths of the pull and of sercomm_sendmsg that touch the queues (%s build)" % tag, npull + nsend, 4)
+        # ---- verdict on X == queued messages (mod 2^bits)
+        key = ("the pull reports `nothing to send` without examining the queues on a test of `%s`: the test takes the "
+               "idle path only when every DLCI queue is empty, for every number of queued messages (%s build)" % (X, tag))
+        req = "no queue content with messages waiting reads as idle"
+        if uncounted and idle_for(0):
+            L.ob(R, F, "sercomm_sendmsg", key, req, "1 message queued, none in flight: sercomm_sendmsg() does not count it "
+                 "(%s), `%s` still reads 0 and %s() returns 0 without dequeuing" % (uncounted[0], X, TX_FN), False, line)
+            continue
+        if uncounted:
+            raise AnalysisError("sercomm_sendmsg(): %s -- unclassifiable" % uncounted[0])
+        consts = {v for c, _ in conds for n in walk(c) for v in [tu.fold(n)] if v is not None and abs(v) < (1 << 70)}
+        points = {1, 2}
+        for k in consts | {1 << (bits - 1), 1 << bits}:
+            points |= {k - 1, k, k + 1, k + (1 << bits) - 1, k + (1 << bits), k + (1 << bits) + 1}
+        wit = next((n for n in sorted(points) if n >= 1 and idle_for(wrapx(n))), None)
+        pb = pointer_bits(tu.kind)
+        fit = (1 << pb) // (2 * pb // 8)        # struct msgb objects (>= two list pointers each) that can exist at once
+        desc = "`%s` is %s (%d bit%s), +1 per enqueue, -1 per dequeue" % (X, qt, bits, ", signed" if signed else "")
+        if wit is None or wit > fit:
+            L.ob(R, F, TX_FN, key, req, "%s; first wrong idle verdict would need %s messages at once, more than the %d-bit "
+                 "address space holds" % (desc, "2^%d" % bits if wit is None else wit, pb), True, line)
+        else:
+            L.ob(R, F, TX_FN, key, req, "%d message(s) queued, none in flight: %s, so it reads %d and %s() returns 0 "
+                 "without dequeuing - the queued messages are not delivered" % (wit, desc, wrapx(wit), TX_FN), False, line)
 
 
 def ctext_term(t):
@@ -4118,6 +4373,63 @@ class PullExec:
             work.append((node.succ[0][0], st))
 
 
+def source_files(L):
+    """(kind, top, relative path, text) of every C file of the firmware and of osmocon (read once per run)."""
+    cache = L.__dict__.setdefault("_c06_sources", [])
+    if cache:
+        return cache
+    for kindname, top in SEARCH:
+        root = os.path.join(L.repo, top)
+        if not os.path.isdir(root):
+            raise AnalysisError("directory %s vanished" % top)
+        for dp, dn, fnames in os.walk(root):
+            dn.sort()
+            for fnm in sorted(fnames):
+                if not fnm.endswith(".c"):
+                    continue
+                p = os.path.join(dp, fnm)
+                try:
+                    with open(p, encoding="utf-8", errors="replace") as fh:
+                        src = fh.read()
+                except OSError as e:
+                    raise AnalysisError("cannot read %s: %s" % (p, e))
+                cache.append((kindname, top, os.path.relpath(p, L.repo), src))
+    return cache
+
+
+def locate_callers(L, name, skip=R6_SKIP_FILES):
+    """[(kind, top, file, occurrences)] of the C files that mention the identifier outside comments and strings."""
+    out = []
+    for kindname, top, rel_, src in source_files(L):
+        if rel_ in skip or name not in src:
+            continue
+        n = ident_count(src, name)
+        if n:
+            out.append((kindname, top, rel_, n))
+    return out
+
+
+def caller_tu(L, kindname, top, rel_):
+    """Translation unit of a driver / application file, parsed with the include paths of its build plus
+    on-the-fly stubs for the hosted headers the firmware tree lacks (one parse per run and file)."""
+    cache = L.__dict__.setdefault("_c06_tus", {})
+    if rel_ in cache:
+        return cache[rel_]
+    stub = tempfile.mkdtemp(prefix="vsa-c06-", dir=os.environ.get("TMPDIR") or "/var/tmp")
+    try:
+        for h, txt in FW_STUBS.items():
+            os.makedirs(os.path.dirname(os.path.join(stub, h)), exist_ok=True)
+            with open(os.path.join(stub, h), "w") as fh:
+                fh.write(txt)
+        tu = TU(L.repo, kindname, os.path.relpath(rel_, top), L=L,
+                defines=COMMON_DEFINES + FILE_DEFINES.get(rel_, ()),
+                extra_flags=("-I", stub) if kindname == "fw" else ())
+    finally:
+        shutil.rmtree(stub, ignore_errors=True)
+    cache[rel_] = tu
+    return tu
+
+
 def r6_pull_contract(L, tu, tag, tx):
     """C06.R6 (callee side).  Callers tell 'an octet was handed out' from
     'nothing to send' by the return value alone: it is non-zero exactly on the
@@ -4147,76 +4459,400 @@ def r6_pull_callers(L):
     is overwritten or goes out of scope, and a buffer handed to write() leaves
     in pull order.  An octet that dies in the caller is missing on the wire."""
     R = "C06.R6"
-    located = []
-    for kindname, top in SEARCH:
-        root = os.path.join(L.repo, top)
-        if not os.path.isdir(root):
-            raise AnalysisError("directory %s vanished" % top)
-        for dp, dn, fnames in os.walk(root):
-            dn.sort()
-            for fnm in sorted(fnames):
-                if not fnm.endswith(".c"):
-                    continue
-                p = os.path.join(dp, fnm)
-                rel_ = os.path.relpath(p, L.repo)
-                if rel_ in R6_SKIP_FILES:
-                    continue
-                try:
-                    with open(p, encoding="utf-8", errors="replace") as fh:
-                        src = fh.read()
-                except OSError as e:
-                    raise AnalysisError("cannot read %s: %s" % (p, e))
-                n = ident_count(src, PULL) if PULL in src else 0
-                if n:
-                    located.append((kindname, top, rel_, n))
+    located = locate_callers(L, PULL)
     full = os.path.isdir(os.path.join(L.repo, "src/target/firmware/calypso"))
     L.floor(R, "files calling %s" % PULL, len(located), 3 if full else 1)
-    stub = tempfile.mkdtemp(prefix="vsa-c06-", dir=os.environ.get("TMPDIR") or "/var/tmp")
     nsites = 0
-    try:
-        for rel_, txt in FW_STUBS.items():
-            os.makedirs(os.path.dirname(os.path.join(stub, rel_)), exist_ok=True)
-            with open(os.path.join(stub, rel_), "w") as fh:
-                fh.write(txt)
-        for kindname, top, rel_, ntext in located:
-            tu = TU(L.repo, kindname, os.path.relpath(rel_, top), L=L,
-                    defines=COMMON_DEFINES + FILE_DEFINES.get(rel_, ()),
-                    extra_flags=("-I", stub) if kindname == "fw" else ())
-            own = own_functions(tu)
-            nast = 0
+    for kindname, top, rel_, ntext in located:
+        tu = caller_tu(L, kindname, top, rel_)
+        own = own_functions(tu)
+        nast = 0
+        for name, fn in sorted(own.items()):
+            refs = [n for n in walk(tu.body(fn)) if kind(n) == "DeclRefExpr" and
+                    n.get("referencedDecl", {}).get("name") == PULL]
+            if not refs:
+                continue
+            nast += len(refs)
+            sites = calls_to(tu.body(fn), PULL)
+            if len(sites) != len(refs):
+                raise AnalysisError("%s(): %s is used as a value (not called) -- its callers are not visible" % (name, PULL))
+            L.fn(tu.rel, name)
+            ex = PullExec(tu, name, fn)
+            ex.run()
+            nsites += len(sites)
+            for i, c in enumerate(sites):
+                arg = ctext(call_args(c)[0])
+                L.floor(R, "explored successful %s(%s) in %s of %s" % (PULL, arg, name, tu.rel), ex.pulls[i], 1)
+                found = sorted("%s%s" % (how, " [first: %s]" % wit if wit else "")
+                               for (site, how), wit in ex.lost.items() if site == i)
+                L.ob(R, tu.rel, name, "every octet obtained by a successful %s(%s) is passed on (call argument, or "
+                     "a buffer cell covered by write()) before its storage is overwritten or goes out of scope, on "
+                     "every path" % (PULL, arg), "no pulled octet is dropped",
+                     found or "passed on on every path", not found, tu.line(c))
+            if ex.sinks:
+                L.require(R, tu.rel, name, "a buffer of pulled octets handed to write() leaves in the order the "
+                          "octets were pulled, none left behind", [], sorted(ex.disorder))
+            if ex.undecided:
+                raise AnalysisError("%s(): %s" % (name, "; ".join(sorted(set(ex.undecided))[:2])))
+        if nast < ntext:
+            raise AnalysisError("%s mentions %s %d times but only %d references are visible in the parsed "
+                                "configuration (call site hidden by the preprocessor)" % (rel_, PULL, ntext, nast))
+    L.floor(R, "%s call sites outside sercomm.c" % PULL, nsites, 3 if full else 1)
+
+
+# ------------------------------------- C06.R8 callers of the receive step keep feeding
+#
+# "an over-long frame is discarded ..., costing at most the one frame that follows it before reception is
+# back in sync": sercomm_drv_rx_char() re-synchronises by itself, but only on octets it is given.  What its
+# callers (the UART interrupt handlers, osmocon's read loop) do with its return value decides whether it is
+# given any: the value that reports the discarded over-long frame (and every other value the function really
+# returns) must not take the caller down a path that turns the source of received octets off.
+
+RXCHAR = "sercomm_drv_rx_char"
+RX_IRQ_FN, RX_IRQ_ENUM = "uart_irq_enable", "UART_IRQ_RX_CHAR"
+RX_IRQ_ASSUMPTION = (
+    "uart_irq_enable(uart, UART_IRQ_RX_CHAR, 0) masks the receive interrupt of the UART (driver API of include/uart.h): "
+    "the sercomm interrupt handler, the only reader of the receive FIFO, is not entered again for received octets until "
+    "some code calls uart_irq_enable(uart, UART_IRQ_RX_CHAR, <non-zero>); the files and functions that do so are "
+    "collected by the rule (a handler that switches it on again itself, or a file outside the UART drivers that "
+    "controls it, withholds the verdict)")
+
+
+def rx_return_values(L, tu, tag, rx):
+    """The values sercomm_drv_rx_char() really returns: the return terms of every walked path of the receive
+    step (helpers followed), each with what the path did."""
+    vals = {}
+    for p in unique_paths(rx.tab):
+        over = rx.room(p) is False
+        for e in p.events:
+            if e[0] != "return":
+                continue
+            t = e[1]
+            if t[0] != "const":
+                raise AnalysisError("%s() returns `%s`, not a constant -- the values its callers see are not enumerated"
+                                    % (RX_FN, ctext_term(t)))
+            vals.setdefault(t[1], set()).add("over-long frame discarded" if over else "octet taken")
+    L.floor("C06.R8", "return values of %s (%s build)" % (RX_FN, tag), len(vals), 1)
+    if not any("over-long frame discarded" in w for w in vals.values()):
+        raise AnalysisError("%s(): no walked path discards an over-long frame -- unclassifiable" % RX_FN)
+    return {v: "/".join(sorted(w)) for v, w in vals.items()}
+
+
+def tv3(tu, e, env):
+    """Three-valued truth of a C condition where the expressions whose text is a key of env have that value."""
+    e = strip(e)
+    if e is None:
+        return None
+    k, ks = kind(e), kids(e)
+    if k == "UnaryOperator" and e.get("opcode") == "!":
+        r = tv3(tu, ks[0], env)
+        return None if r is None else (not r)
+    if k == "BinaryOperator" and e.get("opcode") in ("&&", "||"):
+        a, b = tv3(tu, ks[0], env), tv3(tu, ks[1], env)
+        if e.get("opcode") == "&&":
+            if a is False or b is False:
+                return False
+            return True if (a and b) else None
+        if a is True or b is True:
+            return True
+        return False if (a is False and b is False) else None
+    v = fold_env(tu, e, env)
+    return None if v is None else bool(v)
+
+
+def rx_irq_switches(tu, root, env):
+    """[(what, text)] of the calls below root that switch the UART receive interrupt: uart_irq_enable() whose
+    interrupt argument folds to UART_IRQ_RX_CHAR (or does not fold), what = mask (on == 0) / unmask / maybe."""
+    rxc = tu.enums.get(RX_IRQ_ENUM)
+    out = []
+    if rxc is None:
+        return out
+    for e in effects(root):
+        if e[0] != "call":
+            continue
+        cn = strip(kids(e[3])[0], casts=True)
+        if kind(cn) != "DeclRefExpr" or cn.get("referencedDecl", {}).get("name") != RX_IRQ_FN or len(e[2]) != 3:
+            continue
+        irq, on = fold_env(tu, e[2][1], env), fold_env(tu, e[2][2], env)
+        if irq is not None and irq != rxc:
+            continue
+        if irq is None or on is None:
+            out.append(("maybe", ctext(e[3])))
+        else:
+            out.append(("mask" if on == 0 else "unmask", ctext(e[3])))
+    return out
+
+
+class RxCallerWalk:
+    """One call site of a function whose return value set is known, in one caller: the caller's CFG is walked
+    from the call once per value, branch conditions (and switch operands) that are functions of the result -
+    directly or through integer locals it was assigned to - decided for that value, every other condition
+    followed both ways, until the call is reached again or the function ends."""
+
+    def __init__(self, tu, fname, fn, g, call, callee):
+        self.tu, self.fname, self.fn, self.g, self.call, self.callee = tu, fname, fn, g, call, callee
+        self.C = g.node_of(call)
+        self.ctxt = ctext(call)
+        self.own = own_functions(tu)
+        self.loop = g.loop_of(self.C) if self.C.ast is not None else None
+        self.locals = {n.get("name") for n in walk(fn) if kind(n) in ("VarDecl", "ParmVarDecl")
+                       and n.get("storageClass") not in ("static", "extern")}
+        par = tu.parent.get(id(call))
+        while par is not None and kind(par) in ("ImplicitCastExpr", "ParenExpr", "CStyleCastExpr"):
+            par = tu.parent.get(id(par))
+        if par is not None and kind(par) == "CallExpr" and not any(x is call for x in walk(kids(par)[0])):
+            cn = strip(kids(par)[0], casts=True)
+            cn = cn.get("referencedDecl", {}).get("name") if kind(cn) == "DeclRefExpr" else None
+            if cn is None or cn in self.own:
+                raise AnalysisError("%s(): the result of %s() is passed on to %s -- what is done with it there is not "
+                                    "followed" % (fname, callee, "%s()" % cn if cn else "a call through a pointer"))
+
+    def inside(self, node):
+        """is the CFG node part of the loop the call stands in?"""
+        if self.loop is None or node.kind in ("exit", "raise", "entry"):
+            return node.kind not in ("exit", "raise")
+        a = node.ast
+        if a is not None and kind(a) == "DoHead":
+            return True
+        while a is not None and a is not self.fn:
+            if a is self.loop:
+                return True
+            a = self.tu.parent.get(id(a))
+        return False
+
+    def dep(self, e, env):
+        """value of e when it is a function of the result (undetermined without env, determined with it)"""
+        v = fold_env(self.tu, e, env)
+        if v is None or fold_env(self.tu, e, {}) is not None:
+            return None
+        return v
+
+    def mentions(self, e, env):
+        return any(kind(x) in ("DeclRefExpr", "CallExpr") and ctext(x) in env for x in walk(e))
+
+    def step_env(self, node, env):
+        """env after the statement of a CFG node"""
+        env = dict(env)
+        for e in effects(node.ast) if (node.kind == "stmt" and node.ast is not None and kind(node.ast) != "DoHead") else []:
+            if e[0] == "decl" and e[2] is not None:
+                name, qt, rhs = e[1].get("name"), e[1].get("type", {}).get("qualType", ""), e[2]
+            elif e[0] == "store" and kind(e[1]) == "DeclRefExpr" and ctext(e[1]) in self.locals:
+                name, qt, rhs = ctext(e[1]), e[1].get("type", {}).get("qualType", ""), e[2]
+            elif e[0] in ("compound", "incdec") and ctext(e[1]) in env:
+                env.pop(ctext(e[1]))
+                continue
+            elif e[0] == "call":
+                for a in e[2]:
+                    for x in walk(a):
+                        if kind(x) == "UnaryOperator" and x.get("opcode") == "&" and kids(x) and ctext(kids(x)[0]) in env:
+                            env.pop(ctext(kids(x)[0]))
+                continue
+            else:
+                continue
+            v = self.dep(rhs, env)
+            if v is not None:
+                env[name] = c_wrap(v, qt, self.tu.kind)
+            else:
+                if self.mentions(rhs, env):
+                    raise AnalysisError("%s(): `%s` is computed from the result of %s() by `%s` -- unclassifiable" % (
+                        self.fname, name, self.callee, ctext(rhs)))
+                env.pop(name, None)
+        return env
+
+    def succs(self, node, env, first=False):
+        """[(successor, env, decided by the value?)]"""
+        if node.kind in ("cond", "switch") and node.cond is not None and has_write(node.cond) and self.mentions(node.cond, env):
+            raise AnalysisError("%s(): side effect in the condition `%s` -- unclassifiable" % (self.fname, ctext(node.cond)))
+        nenv = self.step_env(node, env)
+        if first:
+            nenv.pop(self.ctxt, None)
+        if node.kind == "cond" and node.cond is not None:
+            r = tv3(self.tu, node.cond, env)
+            if r is not None and tv3(self.tu, node.cond, {}) is None:
+                out = [(s, nenv, True) for (s, l) in node.succ if bool(l) == r]
+                if out:
+                    return out
+            elif r is None and self.mentions(node.cond, env) and len({id(s) for s, _ in node.succ}) > 1:
+                self.mixed.add(ctext(node.cond))        # also depends on something else: both ways
+        elif node.kind == "switch" and node.cond is not None:
+            x = self.dep(node.cond, env)
+            if x is not None:
+                out = [(s, nenv, True) for (s, l) in node.succ if isinstance(l, tuple) and l[1] == x] or \
+                      [(s, nenv, True) for (s, l) in node.succ if l in ("default", "nodefault")]
+                if out:
+                    return out
+        return [(s, nenv, False) for (s, _) in node.succ]
+
+    def rx_irq(self, node, env):
+        """[(what, text)] of the receive-interrupt switches a node performs: what in mask / maybe / unmask"""
+        root = node.cond if node.kind in ("cond", "switch") else (node.ast if node.kind == "stmt" else None)
+        if root is None or kind(root) == "DoHead":
+            return []
+        return rx_irq_switches(self.tu, root, env)
+
+    def run(self, v):
+        """Walk for the return value v.  Returns (nodes visited, transitions leaving the read loop, texts of the
+        conditions that read the result, {mask text: 'must' | 'may'}, values returned by the caller as a function of v)."""
+        self.mixed = set()
+        start = ("call", v)
+        states = {start: (self.C, {self.ctxt: v})}
+        edges, work, decided, exits, rets = {}, [start], set(), set(), set()
+        ends = set()
+        while work:
+            key = work.pop()
+            node, env = states[key]
+            first = key == start
+            if not first and (node is self.C or node.kind in ("exit", "raise")):
+                ends.add(key)
+                continue
+            if node.kind == "stmt" and node.ast is not None and kind(node.ast) == "ReturnStmt" and kids(node.ast):
+                rv = self.dep(kids(node.ast)[0], env)
+                if rv is not None:
+                    rets.add(rv)
+                elif self.mentions(kids(node.ast)[0], env):
+                    raise AnalysisError("%s(): returns `%s`, computed from the result of %s() -- unclassifiable" % (
+                        self.fname, ctext(kids(node.ast)[0]), self.callee))
+            for (s, nenv, dec) in self.succs(node, env, first):
+                if dec:
+                    decided.add(ctext(node.cond))
+                k2 = (s.id, tuple(sorted(nenv.items())))
+                edges.setdefault(key, set()).add(k2)
+                if self.loop is not None and self.inside(node) and not self.inside(s):
+                    exits.add((node.id, s.id))
+                if k2 not in states:
+                    if len(states) > 20000:
+                        raise AnalysisError("%s(): too many states behind the call of %s()" % (self.fname, self.callee))
+                    states[k2] = (s, nenv)
+                    work.append(k2)
+        decided |= self.mixed
+        visited = {n.id for k, (n, _) in states.items() if k != start}
+        masks = {}
+        for key, (node, env) in states.items():
+            if key == start and node.kind == "stmt":
+                continue
+            for what, txt in self.rx_irq(node, env):
+                masks.setdefault((what, txt, self.tu.line(node.ast) if node.ast else None), set()).add(key)
+        status = {}
+        for (what, txt, line), keys in masks.items():
+            # must: no way from the call to its next execution / the end of the function that avoids the switch
+            seen, todo, escapes = {start}, [start], False
+            while todo and not escapes:
+                k = todo.pop()
+                for k2 in edges.get(k, ()):
+                    if k2 in seen or k2 in keys:
+                        continue
+                    if k2 in ends:
+                        escapes = True
+                        break
+                    seen.add(k2)
+                    todo.append(k2)
+            status[(what, txt, line)] = "may" if escapes else "must"
+        return visited, exits, decided, status, rets
+
+
+def r8_rx_callers(L, rxvals):
+    """C06.R8 -- decides, for the clause 'an over-long frame is discarded ..., costing at most the one frame
+    that follows it before reception is back in sync' (and 'fed octet by octet into a receiver ... delivered'
+    for every later frame), the premise that the receiver keeps being fed whatever sercomm_drv_rx_char()
+    returned.  The value set is not read off the header comment but enumerated from the walked paths of the
+    receive step of the same build ({0: over-long frame discarded, 1: octet taken} today).  In every caller
+    (located by identifier over the firmware and osmocon sources, parsed with the flags of their build) the
+    CFG is walked from the call once per such value, with the branch conditions that are functions of the
+    result decided for it: a receive-interrupt mask - uart_irq_enable(., UART_IRQ_RX_CHAR, 0), arguments
+    folded - that lies on EVERY way from the call to its next execution / the end of the handler for a value
+    the function really returns means no octet after that return reaches the receiver: every later frame is
+    lost, not at most one.  A test no actual value satisfies (`< 0`) guards dead code and is not judged.
+    A mask reached only on some of the ways, a read loop that is left (break / return / goto) for some values
+    only, or a result that is passed on unexamined are not judged (ANALYSIS-ERROR); a caller that returns a
+    function of the result is treated as one more function with a known value set and its callers are walked."""
+    R = "C06.R8"
+    L.assume(RX_IRQ_ASSUMPTION)
+    full = os.path.isdir(os.path.join(L.repo, "src/target/firmware/calypso"))
+    located = locate_callers(L, RXCHAR)
+    L.floor(R, "files calling %s" % RXCHAR, len(located), 3 if full else 1)
+    irq_files = sorted(rel_ for _, _, rel_, src in source_files(L) if RX_IRQ_ENUM in src and ident_count(src, RX_IRQ_ENUM))
+    nsites = 0
+    for kindname, top, rel_, ntext in located:
+        vals = rxvals.get(kindname)
+        if not vals:
+            raise AnalysisError("no return value set of %s() for the %s build" % (RXCHAR, kindname))
+        tu = caller_tu(L, kindname, top, rel_)
+        own = own_functions(tu)
+        nast = 0
+        work, done = [(RXCHAR, dict(vals))], set()
+        while work:
+            callee, cvals = work.pop(0)
+            if callee in done:
+                continue
+            done.add(callee)
             for name, fn in sorted(own.items()):
                 refs = [n for n in walk(tu.body(fn)) if kind(n) == "DeclRefExpr" and
-                        n.get("referencedDecl", {}).get("name") == PULL]
+                        n.get("referencedDecl", {}).get("name") == callee]
                 if not refs:
                     continue
-                nast += len(refs)
-                sites = calls_to(tu.body(fn), PULL)
+                sites = calls_to(tu.body(fn), callee)
+                if callee == RXCHAR:
+                    nast += len(refs)
                 if len(sites) != len(refs):
-                    raise AnalysisError("%s(): %s is used as a value (not called) -- its callers are not visible" % (name, PULL))
+                    raise AnalysisError("%s(): %s is used as a value (not called) -- its callers are not visible" % (name, callee))
                 L.fn(tu.rel, name)
-                ex = PullExec(tu, name, fn)
-                ex.run()
-                nsites += len(sites)
-                for i, c in enumerate(sites):
-                    arg = ctext(call_args(c)[0])
-                    L.floor(R, "explored successful %s(%s) in %s of %s" % (PULL, arg, name, tu.rel), ex.pulls[i], 1)
-                    found = sorted("%s%s" % (how, " [first: %s]" % wit if wit else "")
-                                   for (site, how), wit in ex.lost.items() if site == i)
-                    L.ob(R, tu.rel, name, "every octet obtained by a successful %s(%s) is passed on (call argument, or "
-                         "a buffer cell covered by write()) before its storage is overwritten or goes out of scope, on "
-                         "every path" % (PULL, arg), "no pulled octet is dropped",
-                         found or "passed on on every path", not found, tu.line(c))
-                if ex.sinks:
-                    L.require(R, tu.rel, name, "a buffer of pulled octets handed to write() leaves in the order the "
-                              "octets were pulled, none left behind", [], sorted(ex.disorder))
-                if ex.undecided:
-                    raise AnalysisError("%s(): %s" % (name, "; ".join(sorted(set(ex.undecided))[:2])))
-            if nast < ntext:
-                raise AnalysisError("%s mentions %s %d times but only %d references are visible in the parsed "
-                                    "configuration (call site hidden by the preprocessor)" % (rel_, PULL, ntext, nast))
-    finally:
-        shutil.rmtree(stub, ignore_errors=True)
-    L.floor(R, "%s call sites outside sercomm.c" % PULL, nsites, 3 if full else 1)
+                g = CCFG(tu, fn)
+                unmask_here = sorted({txt for what, txt in rx_irq_switches(tu, tu.body(fn), {}) if what != "mask"})
+                enablers = sorted(f2 for f2, fd in own.items() if f2 != name and any(
+                    what != "mask" for what, _ in rx_irq_switches(tu, tu.body(fd), {})))
+                for c in sites:
+                    nsites += 1
+                    w = RxCallerWalk(tu, name, fn, g, c, callee)
+                    res = {v: w.run(v) for v in sorted(cvals)}
+                    vtxt = ", ".join("%d: %s" % (v, cvals[v]) for v in sorted(cvals))
+                    key = ("after every value %s() really returns the receiver is still fed: no way the caller takes "
+                           "for such a value switches the receive interrupt off" % callee)
+                    req = "receive interrupt left enabled after each of {%s}" % vtxt
+                    line = tu.line(c)
+                    tests = sorted(set().union(*[r[2] for r in res.values()]))
+                    wrapped = set().union(*[r[4] for r in res.values()])
+                    if wrapped:
+                        if fn.get("storageClass") != "static":
+                            raise AnalysisError("%s() hands a function of the result of %s() to its callers in other files "
+                                                "-- not followed" % (name, callee))
+                        nv = {}
+                        for v, r in res.items():
+                            for x in r[4]:
+                                nv[x] = "/".join(sorted(set(filter(None, [nv.get(x), cvals[v]]))))
+                        work.append((name, nv))
+                    bad, undecided = [], []
+                    for v, (visited, exits, decided, status, rets) in sorted(res.items()):
+                        for (what, txt, ln), st in sorted(status.items(), key=str):
+                            if what == "unmask":
+                                continue
+                            same = all((what, txt, ln) in r[3] and r[3][(what, txt, ln)] == st for r in res.values())
+                            if same:
+                                continue        # whatever was returned: not a reaction to the return value
+                            if what == "mask" and st == "must":
+                                bad.append("return value %d (%s): %s on every way that follows (line %s)" % (v, cvals[v], txt, ln))
+                            else:
+                                undecided.append("return value %d: %s is reached on some of the ways only / with arguments "
+                                                 "that do not fold" % (v, txt))
+                    exsets = {frozenset(r[1]) for r in res.values()}
+                    if len(exsets) > 1 and not bad:
+                        undecided.append("the read loop is left for some return values only (%s)" % ", ".join(
+                            "%d: %d way(s) out" % (v, len(r[1])) for v, r in sorted(res.items())))
+                    if bad:
+                        others = [f for f in irq_files if f != tu.rel and not any(f == l[2] for l in located)]
+                        if unmask_here or others:
+                            raise AnalysisError("%s(): %s; but the receive interrupt is also switched by %s -- whether it "
+                                                "stays off is not decided" % (name, bad[0], unmask_here or others))
+                        L.ob(R, tu.rel, name, key, req, "%s; it is switched on again by: %s" % (
+                            "; ".join(bad), ", ".join("%s()" % f for f in enablers) or "nothing in this file"), False, line)
+                        continue
+                    if undecided:
+                        raise AnalysisError("%s(): %s -- unclassifiable" % (name, undecided[0]))
+                    L.ob(R, tu.rel, name, key, req, "tests of the result: %s" % (
+                        ", ".join("`%s`" % t for t in tests) if tests else "none"), True, line)
+        if nast < ntext:
+            raise AnalysisError("%s mentions %s %d times but only %d references are visible in the parsed "
+                                "configuration (call site hidden by the preprocessor)" % (rel_, RXCHAR, ntext, nast))
+    L.floor(R, "%s call sites outside sercomm.c" % RXCHAR, nsites, 3 if full else 1)
 
 
 def load_tu(L, kindname, relfile):
@@ -4232,6 +4868,7 @@ def run(L, tier):
     # every rule group runs as its own stage: an AnalysisError in one of them is deferred, so a violation
     # recognised by another group is still reported
     mtu = L.stage(load_msgb_tu, L)
+    rxvals = {}
     for tag, kindname, relfile, size in BUILDS:
         tu = L.stage(load_tu, L, kindname, relfile)
         rx = L.stage(Rx, tu)
@@ -4244,6 +4881,7 @@ def run(L, tier):
         L.stage(r4_queue_scan, L, tu, tx)
         L.stage(r4_sendmsg, L, tu)
         L.stage(r6_pull_contract, L, tu, tag, tx)
+        rxvals[kindname] = L.stage(rx_return_values, L, tu, tag, rx)
         K = L.stage(r2_tx, L, tu, tag, tx)
         if K is None:
             continue        # the transmitter's shape is already reported as violated
@@ -4253,5 +4891,9 @@ def run(L, tier):
         L.stage(r4_frame_end, L, tu, tag, rx, K, chain)
     L.stage(r4_msgb, L, mtu)
     L.stage(r6_pull_callers, L)
+    if any(v is STAGE_FAILED for v in rxvals.values()) or len(rxvals) < len(BUILDS):
+        L.stage(r8_rx_callers, L, STAGE_FAILED)     # the value set of a build is not known (already recorded)
+    else:
+        L.stage(r8_rx_callers, L, rxvals)
     if tier == "thorough":
         L.stage(r5_callers, L)
